@@ -273,6 +273,8 @@ def decide(prop, tier, seed, replay=None):
             harness_err[key] += 1
             if key == 'watchdog-in-bubus':
                 liveness_viol.append((sid, r['err']))
+            if r['lines']:
+                lines += r['lines']      # (a run stopped by the budget: its history so far is followed all the same)
             continue
         lines += r['lines']
     per, cov = run_driver(lines) if lines else ({}, {})
